@@ -38,6 +38,7 @@ def prove(tier, seed):
     tasks = IP.instances_C02(tier)
     records, wall = IP.run_instances(tasks, S)
     names = ["partial_trace"]
+    records += IP.frame_records(["partial_trace"])
     planted = selfcheck.planted("C02", tier, S)
     sc = selfcheck.standard(records, names)
     sc["planted_bugs_all_refuted"] = {"ok": planted["tried"] == planted["refuted"], "detail": planted}
@@ -86,6 +87,11 @@ def cases(tier, seed):
         add("ptrace.index", dict(sys=[1], dims=[d, d], sysform="list", dimform="omitted", sys_omitted=True), "partial_trace/omitted")
         add("ptrace.index", dict(sys=[0], dims=[d, d], sysform="list", dimform="omitted"), "partial_trace/omitted-dim")
         add("ptrace.index", dict(sys=[1], dims=[d, d], sysform="int", dimform="omitted"), "partial_trace/omitted-dim")
+    for S in ([0], [1, 0], [2]):
+        add("frame.args", dict(fn="partial_trace", sys=S, rdims=[2, 3, 2], cdims=[2, 3, 2]), "frame/partial_trace")
+    for dt in ("int8", "uint8", "int16", "int32", "bool"):
+        for d, S in (([2, 3], [1]), ([3, 2, 2], [0, 2]), ([4, 4], [0])):
+            add("int_dtype", dict(dtype=dt, dims=d, sys=S), "int_dtype/%s" % dt)
     # S-set-order for n <= 8 (qubits)
     for n in (5, 6, 7, 8):
         for S in ([1, 3], [n - 1, 0], [2], list(range(1, n, 2))):
